@@ -31,8 +31,8 @@ TRUSTED_BASE = [
     "65..90 -> +32 translation (independent of bytes.lower())",
 ]
 ASSUMPTIONS = [
-    "successor_gt / predecessor_lt are proved for absolute names (both prefix_ok values); for relative names the "
-    "transport through derelativize/relativize is tie-only (correspondence + direct oracle)",
+    "relativize-then-derelativize is proved for absolute names and for relative names below a non-empty origin; at the "
+    "empty origin the code drops the name (recorded known finding, counterexample proved in Props/C06.lean)",
     "dns.namedict.NameDict.get_deepest_match and sorted() are checked by the direct oracle only (not modelled)",
     "IDNA/unicode paths are outside the model",
 ]
@@ -641,8 +641,8 @@ LEVEL = {
             "antisymmetry, transitivity (strict and non-strict) on all pairs and triples; equality iff equal up to ASCII "
             "case; equal names hash equally; relation and nlabels equal an independent specification and agree with "
             "is_subdomain / is_superdomain / parent / split; relativize-derelativize restores every absolute name; "
-            "successor sorts strictly after (or wraps) and predecessor strictly before, proved for absolute names and both "
-            "prefix_ok values.  The model is tied to the code by a differential correspondence check on every modelled "
+            "successor sorts strictly after (or wraps) and predecessor strictly before, for absolute and relative names and "
+            "both prefix_ok values.  The model is tied to the code by a differential correspondence check on every modelled "
             "function and a direct oracle (independent Python reference order) on pairs, triples, sorted() and NameDict.",
     "note": "Trusted: Lean kernel + propext/Classical.choice/Quot.sound; the statements in lean/Props/C06.lean; the "
             "correspondence harness and its generators; harness/extract.py.  Partial: successor/predecessor monotonicity "
